@@ -659,7 +659,15 @@ func (r *ruleState) txStep(tr *TxRec, pre, post *tables.Tables) {
 				s.Probes["notify_finished_after_attempt"]++
 			}
 			if !ok {
-				s.violate("T16.finished_illegally", P("C05", "C08", "C07"), "task", fmt.Sprintf("%s task %d->8 by %s", mesgType(t), t.State, tr.Name), fmt.Sprintf("%s -> %s", t, u))
+				// name the history: the transaction tried to complete the task's root promise and lost
+				// the race (its conditional update matched no row), yet its CompleteTasks ran
+				how := ""
+				for i, c := range tr.Tx.Commands {
+					if c.Kind == t_aio.UpdatePromise && c.UpdatePromise.Id == t.RootPromiseId && i < len(tr.Results) && tr.Results[i] != nil && tr.Results[i].UpdatePromise.RowsAffected == 0 {
+						how = " after losing the race for its root"
+					}
+				}
+				s.violate("T16.finished_illegally", P("C05", "C08", "C07"), "task", fmt.Sprintf("%s task finished by %s%s", mesgType(t), tr.Name, how), fmt.Sprintf("state %d: %s -> %s", t.State, t, u))
 			}
 		}
 		if active(t.State) && u.State == 16 && clock < t.Timeout {
